@@ -81,6 +81,24 @@ theorem C09_routing_single (c : List UInt8) : Token.routingKey [c] = c := rfl
 
 example : Token.routingKey [[1], [2, 3]] = [0, 1, 1, 0, 0, 2, 2, 3, 0] := by decide
 
+/-- **The routing key is DEFINED, with exactly Cassandra's framing, for every component list whose components have at
+    most 65535 bytes** (the whole range of the unsigned [short] length - 32768 … 65535 included; any number of
+    components; one component ↦ the value itself, of any length): what `createRoutingKey` builds is
+    `Spec.routingKey` = per component the length as an unsigned 16-bit big-endian number, the bytes, a 0 byte.
+    `Token.routingKey` is a total function: there is no outcome "error" or "no key" for encodable components
+    (ops rksz; the outcome kind is part of the answer). -/
+theorem C09_routing_key_framing (cs : List (List UInt8)) (h : ∀ c ∈ cs, c.length ≤ 65535) :
+    Token.routingKey cs = Token.Spec.routingKey cs := Token.routingKey_eq_spec cs h
+
+/-- the recorded limitation above 65535 bytes (a table cannot hold such a key: Cassandra refuses it): the length field
+    is the length modulo 65536 (op rkszx: model-vs-code) -/
+theorem C09_routing_length_wraps_above_65535 (c : List UInt8) (cs : List (List UInt8)) :
+    Token.composite (c :: cs) = Token.be16 (c.length % 65536) ++ c ++ [0] ++ Token.composite cs := rfl
+
+example : Token.Spec.routingKey [[1], [2, 3]] = [0, 1, 1, 0, 0, 2, 2, 3, 0] ∧ Token.Spec.routingKey [[7, 7]] = [7, 7] := by decide
+/-- a component of 32768 bytes: the length bytes are 80 00 (unsigned), not an error and not a negative number -/
+example : (Token.Spec.routingKey [List.replicate 32768 1, []]).take 3 = [0x80, 0x00, 1] := by decide +kernel
+
 /-- Token strings: decimal strings of in-range numbers parse to the number, so order is preserved. -/
 theorem C09_parse_order (i j : Int)
     (hi : Token.int64Min ≤ i ∧ i ≤ Token.int64Max) (hj : Token.int64Min ≤ j ∧ j ≤ Token.int64Max) :
@@ -183,6 +201,14 @@ theorem C09_routing_from_metadata (enc : τ → ν → Enc) (m : Meta τ) (schem
       rw [hloop []]
       subst hcs
       simp [Token.routingKey]
+
+/-- …so through `Query.GetRoutingKey` / `Batch.GetRoutingKey` the outcome is A KEY - the specification's framing - whenever
+    every key component encodes to at most 65535 bytes -/
+theorem C09_routing_defined_upto_65535 (enc : τ → ν → Enc) (m : Meta τ) (schema : Option (List String))
+    (vals : List ν) (cs : List Bytes)
+    (hpk : m.pkeys ≠ []) (h : Spec.components enc m.cols vals m.pkeys = some cs) (hlen : ∀ c ∈ cs, c.length ≤ 65535) :
+    getRoutingKey enc m schema vals = .key (some (Token.Spec.routingKey cs)) := by
+  rw [C09_routing_from_metadata enc m schema vals cs hpk h, Token.routingKey_eq_spec cs hlen]
 
 /-- **The same when the key columns come from the schema metadata** (protocol ≤ 3, or no pk indexes in the PREPARE
     answer): each key column is the FIRST bind marker whose column has that name. -/
@@ -639,5 +665,31 @@ example :
   decide
 
 end cache
+
+/-! ### concurrent first uses of one statement (the inflight wait), conducted schedules -/
+section conc
+open RoutingCache.Conc
+
+/-- **Concurrent first uses.** For EVERY schedule of events on one statement - any number of goroutines asking for the
+    routing key, in any interleaving with the arrival of the server's answer to PREPARE and with PREPARE failures - the
+    owner / waiter machinery of the inflight cache entry answers exactly what the specification without a cache answers:
+    every goroutine gets the key of ITS OWN bound values computed from the statement's metadata as soon as the
+    statement is prepared (the owner and all waiters at that moment, later ones at once), and exactly the goroutines in
+    flight when a PREPARE fails get that failure - the failure is not kept. (op rkq; statements with a malformed PREPARE
+    answer - an index panic - are excluded as in C09_cache_transparent_partial.) -/
+theorem C09_cache_concurrent_first_use (enc : τ → ν → Routing.Enc) (st : RoutingCache.Stmt τ)
+    (hcr : RoutingCache.crashes st = false) (evs : List (Ev ν)) :
+    run enc st (false, .idle) evs = Spec.run enc st (false, []) evs :=
+  run_spec enc st hcr evs _ _ ⟨rfl, rfl⟩
+
+/-- non-vacuity: two goroutines wait (g1 owner, g2 waiter), the answer arrives: each gets the key of its own values; g3
+    then hits the cache; and a failed PREPARE reaches owner and waiter, the next use starts afresh -/
+example : run toyEnc (toyStmt 0) (false, .idle) [.go 1 [[1], [2]], .go 2 [[3], [4]], .ansOk, .go 3 [[5], [6]]]
+    = [[], [], [(1, .res (.key (some [0, 1]))), (2, .res (.key (some [0, 3])))], [(3, .res (.key (some [0, 5])))]] := by decide
+example : run toyEnc (toyStmt 0) (false, .idle) [.go 1 [[1], [2]], .go 2 [[3], [4]], .ansFail, .go 3 [[5], [6]], .ansOk]
+    = [[], [], [(1, .errPrepare), (2, .errPrepare)], [], [(3, .res (.key (some [0, 5])))]] := by decide
+
+end conc
+
 
 end C09
